@@ -111,10 +111,18 @@ def run(ctx, log):
     for _ in range(300 if ctx.quick else 20000):
         pairs.add((rand_int(rng), rand_int(rng)))
     pairs = sorted(pairs)
+    ext_pairs = {(x, y) for x in extreme for y in extreme} if not ctx.quick else {(x, y) for x in extreme[:8] for y in extreme[:8]}
     cases = []   # (form, opsym, opname, a, b)
     arith_cmp = OPS[:11]
     for (a, b) in pairs:
-        ops = arith_cmp if (not ctx.quick or (a, b) in [(x, y) for x in extreme[:8] for y in extreme[:8]]) else [rng.choice(arith_cmp) for _ in range(3)]
+        if (a, b) in ext_pairs:
+            ops = arith_cmp
+        elif ctx.quick:
+            ops = [rng.choice(arith_cmp) for _ in range(3)]
+        else:
+            # thorough: every pair of the complete lattice cross product is visited, with one operator chosen by the
+            # pair and a random second one, in all forms (all 11 operators on the extreme pairs): about 8e5 cases
+            ops = [arith_cmp[(a * 7 + b * 13) % 11], rng.choice(arith_cmp)]
         for sym, name in ops:
             cases.append(("FGeneric", sym, name, ("i", a), ("i", b)))
             if b >= 0:
